@@ -179,11 +179,15 @@ structure Cfg (α : Type) where
 
 def nan : α := ((0:Nat):α) / ((0:Nat):α)
 
+/-- `x` is neither infinite nor NaN (`x - x` is `0` exactly for finite `x`); always true on `ℝ`.
+    The range checks of `Normalizer._check_input` are strict on both sides, so `±inf` is outside `(lo, inf)`. -/
+def isFinite (x : α) : Bool := decide (x - x ≤ ((0:Nat):α))
+
 /-- `Normalizer.normalize`: `_normalize` on the open `normalize_range` (here `(0, ∞)`), NaN outside -/
 def NormKind.normalize : NormKind α → α → α
   | .none, x => x
-  | .lognormal, x => if ((0:Nat):α) < x then log x else nan
-  | .boxcox l, x => if ((0:Nat):α) < x then bcNormalize l x else nan
+  | .lognormal, x => if ((0:Nat):α) < x ∧ isFinite x then log x else nan
+  | .boxcox l, x => if ((0:Nat):α) < x ∧ isFinite x then bcNormalize l x else nan
 
 /-- `Normalizer.denormalize`: `_denormalize` on the open `denormalize_range`, NaN outside
     (Box-Cox: `(-1/λ, ∞)` for `λ > 0`, `(-∞, -1/λ)` for `λ < 0`, everything when `isclose(λ, 0)`) -/
@@ -193,8 +197,8 @@ def NormKind.denormalize : NormKind α → α → α
   | .boxcox l, x =>
       if lmbdaIsZero l then bcDenormalize l x
       else if l < ((0:Nat):α) then
-        (if x < -(((1:Nat):α) / l) then bcDenormalize l x else nan)
-      else (if -(((1:Nat):α) / l) < x then bcDenormalize l x else nan)
+        (if x < -(((1:Nat):α) / l) ∧ isFinite x then bcDenormalize l x else nan)
+      else (if -(((1:Nat):α) / l) < x ∧ isFinite x then bcDenormalize l x else nan)
 
 def NormKind.isDefault : NormKind α → Bool
   | .none => true
